@@ -515,5 +515,57 @@ BY["complete_protocol_positional_from_dash_slot"].codes = ("carapace_registered:
 BY["subcommand_after_parent_flags"].codes = ("subcommand_",)
 BY["shorthand_series_after_dash"].codes = ("wrong_slot:dash",)
 
-CLASSES = CLASSES + ALG_CLASSES + SPLIT_CLASSES + CACHE_CLASSES + FILES_CLASSES + PARSE_CLASSES
+
+# ---- entry engine (C18)
+import re as _re
+
+def _entry_shell(i):
+    a = i.get("args") or []
+    return a[0] if len(a) >= 2 else None
+
+
+def _has_ctl(s, chars):
+    s = _unescape(s)
+    return any(c in s for c in chars)
+
+
+def _unescape(s):
+    return _re.sub(r"\\x([0-9a-fA-F]{2})", lambda m: chr(int(m.group(1), 16)), s or "")
+
+
+def _strip_ctl(s, chars):
+    out = s or ""
+    for c in chars:
+        out = out.replace(c, "").replace("\\x%02x" % ord(c), "").replace("\\x%02X" % ord(c), "")
+    return out
+
+
+def _entry_texts(i):
+    return list(i.get("args") or [])[1:] + list((i.get("env") or {}).values()) + [i.get("desc") or ""]
+
+
+def _entry_neutral(chars):
+    def f(i):
+        o = copy.deepcopy(i)
+        o["args"] = o["args"][:1] + [_strip_ctl(a, chars) for a in o["args"][1:]]
+        o["env"] = {k: _strip_ctl(v, chars) for k, v in (o.get("env") or {}).items()}
+        o["desc"] = _strip_ctl(o.get("desc"), chars)
+        return o
+    return f
+
+
+_ZSH_FRAME = "\x01\x02\x03"
+_BLE_FRAME = "\t\x1c"
+ENTRY_CLASSES = [
+    Class("zsh_framing_control_chars", ("C18",), ("entry",),
+          lambda i: _entry_shell(i) == "zsh" and any(_has_ctl(t, _ZSH_FRAME) for t in _entry_texts(i)), _entry_neutral(_ZSH_FRAME),
+          "zsh: the output is framed with \\001 \\002 \\003 but neither the sanitizer nor the message formatter removes these characters: a typed word (echoed in an error message or a `--flag=` prefix) or a description containing one of them yields output the zsh snippet splits into the wrong fields"),
+    Class("bashble_unsanitised_entry", ("C18",), ("entry",),
+          lambda i: _entry_shell(i) == "bash-ble" and any(_has_ctl(t, _BLE_FRAME) for t in _entry_texts(i)), _entry_neutral(_BLE_FRAME),
+          "bash-ble: no field is sanitised (the listed finding bashble_unsanitised of C04): a tab or \\x1c in a description or an echoed word yields records the ble.sh snippet cannot split into its four fields"),
+]
+for _c in ENTRY_CLASSES:
+    _c.codes = ("malformed_output:",)
+
+CLASSES = CLASSES + ENTRY_CLASSES + ALG_CLASSES + SPLIT_CLASSES + CACHE_CLASSES + FILES_CLASSES + PARSE_CLASSES
 BY_ID = {c.id: c for c in CLASSES}
